@@ -186,6 +186,9 @@ NextN == \E tag \in Tags :
            \/ \E l \in 1..3 : \E calls \in [1..l -> {"SetSNAT", "SetDNAT", "SetPersistent", "SetProtoHash", "SetRandom"}] :
                 /\ c' = <<"natflags", calls, tag>>
                 /\ LET nat == NatFlagsEl("a1", calls, tag) IN Emit("N", ActSeqIn("ct", "m", <<nat>>, tag), <<nat>>)
+           \/ \E lastRange \in BOOLEAN :
+                /\ c' = <<"ctzoneseq", lastRange, tag>>
+                /\ LET ct == CtZoneSeqEl("a1", <<LeafAct("k1", "output", tag)>>, tag, lastRange) IN Emit("N", ActSeqIn("apply", "m", <<ct>>, tag), <<ct>>)
            \/ /\ c' = <<"ctforce", tag>>
               /\ LET ct == CtForceEl("a1", <<LeafAct("k1", "nat44", tag)>>, tag) IN Emit("N", ActSeqIn("apply", "m", <<ct>>, tag), <<ct>>)
            \/ \E len \in 0..17 :
